@@ -104,19 +104,21 @@ def decodeAbort (d : Bytes) : Option Nat :=
   if n = 0 ∨ n = 4294967295 then some code
   else if n > r.length - 4 then none else some code
 
-/-- the loop of `mergeChunks`: `seqnr` is the last sequence number kept,
-    initially 0; a chunk whose number equals it is skipped as "duplicate" -/
+/-- the loop of `mergeChunks` from the second chunk on: `seqnr` is the last
+    sequence number kept; a chunk whose number equals it is skipped as "duplicate" -/
 def mergeLoop : Nat → List Chunk → Bytes
   | _, [] => []
   | seqnr, c :: cs =>
     if c.seq = seqnr then mergeLoop seqnr cs
     else c.data ++ mergeLoop c.seq cs
 
-/-- `mergeChunks` (it never returns an error) -/
+/-- `mergeChunks` (it never returns an error): a single chunk is returned as it
+    is; otherwise `for i, c := range chunks { if i > 0 && c.seq == seqnr { continue }; … }`
+    — the first chunk is always kept (repair of C12.merge-drops-seq0) -/
 def mergeChunks : List Chunk → Bytes
   | [] => []
   | [c] => c.data
-  | cs => mergeLoop 0 cs
+  | c :: cs => c.data ++ mergeLoop c.seq cs
 
 /-- the part of `Receive` after `readChunk` for one request id, on the buffer
     `buf = s.chunks[reqID]`: new buffer and result -/
@@ -284,21 +286,27 @@ theorem mergeLoop_all (prev : Nat) (cs : List Chunk) (h : seqChain prev (cs.map 
     simp only [List.map, seqChain] at h
     simp [mergeLoop, h.1, allData, ih c.seq h.2]
 
-/-- `mergeChunks` concatenates all payloads when there is a single chunk or no
-    chunk is skipped by the duplicate filter -/
-theorem mergeChunks_all (cs : List Chunk) (h : cs.length ≤ 1 ∨ seqChain 0 (cs.map (·.seq))) :
+/-- neighbouring numbers differ -/
+def adjDistinct : List Nat → Prop
+  | [] => True
+  | a :: r => seqChain a r
+
+instance : (l : List Nat) → Decidable (adjDistinct l)
+  | [] => isTrue trivial
+  | a :: r => by unfold adjDistinct; infer_instance
+
+/-- `mergeChunks` concatenates all payloads when no chunk repeats the number of
+    its predecessor -/
+theorem mergeChunks_all (cs : List Chunk) (h : adjDistinct (cs.map (·.seq))) :
     mergeChunks cs = allData cs := by
   match cs, h with
   | [], _ => rfl
   | [c], _ => simp [mergeChunks, allData]
   | a :: b :: t, h =>
-    have h' : seqChain 0 ((a :: b :: t).map (·.seq)) := by
-      rcases h with h | h
-      · simp at h
-      · exact h
     simp only [mergeChunks]
-    exact mergeLoop_all 0 _ h'
-
+    have := mergeLoop_all a.seq (b :: t) h
+    rw [this]
+    simp [allData]
 
 /-! ### runs -/
 
